@@ -1,11 +1,525 @@
-/- C10 — executable model (stub; filled in by the property's owner). -/
+/-
+C10 — memory safety. Index-arithmetic models of the native loops: every definition below
+enumerates (for concrete parameters) the indices a loop of the real C++ dereferences, each paired
+with the number of valid indices of the buffer (or axis) it is applied to. The theorems in
+`Properties/C10.lean` show, for ALL parameters of the documented domain, that every such index is
+in range. The same definitions answer the protocol lines below, so the harness can run them on
+valid parameters (expect `ok=1`) and on invalid ones (expect `ok=0`).
+
+Protocol (`c10 kind=<k> …`; every value is a decimal integer or a comma separated list):
+
+  kind=filter  shape=<ints> fshape=<ints> mode=<0..5, Mode.ofCode>
+      -> `fill=<list> idx=<list> ok=<0|1> n=<len> rows=<list> nrows=<int>`
+         `idx`  = for every array position p (C scan order, outer) and every filter coordinate k
+                  (C scan order, inner) the C-order flat index of the element the filter iterator
+                  reads (`ravelZ`, signed), or -1 for the border flag;
+         `ok`   = 1 iff every non-flag coordinate list is inside `shape`; `n` = length of `idx`;
+         `rows` = for every array position (scan order) the row of the offsets table the pointer
+                  arithmetic of `iterate_both` has reached (`scanState`; proved equal to `tableRow`);
+         `nrows`= `offsets_size` = Π min(shape_d, fshape_d);
+         `fill` = for every table row the C-order flat index of the `position[]` at which
+                  `init_filter_offsets` computed it (`fillPos`).
+  kind=region  a= f=
+      -> `idx= rep= pos=`; one axis of length a under a filter of length f: `idx` = index of the
+         offsets region used at coordinate p = 0..a-1 (`iterate_both`), `rep` = the `position[]` that
+         region's offsets were computed at, `pos` = `position[]` of the regions 0..min(a,f)-1.
+  kind=fastbin ny= nx= dy= dx= erosion=<0|1> [clamp=<0|1>, default 1]
+      -> `ok= n= term=`; all rows y in [0,ny) of `fast_binary_dilate_erode_2d` for ONE raw offset
+         (dy,dx) = (y_B - Cy, x_B - Cx). `clamp=0` drops the clamp of dx to [-nx,nx] (the pre-repair code).
+  kind=conv1d  n1= nf= mode=<0..5>
+      -> `ok= n= term=`; one row of `convolve1d` (fast path), N1 = n1 columns, Nf = nf weights.
+  kind=find2d  n0= n1= t0= t1= [incl=<0|1>, default 0: loops `y < N0-Nt0`; 1: `y <= N0-Nt0`]
+      -> `ok= n=`
+  kind=majority rows= cols= n=
+      -> `ok= n= term=`
+  kind=hitmiss shape=<ints> bshape=<ints> [margin=<0|1>, default 1; 0 removes the margin test]
+      -> `ok= n= term=`
+  kind=dt      n= [pop=<ints>] [adv=<ints>, default 1] [guard=<0|1>, default 1]
+      -> `ok= n= term=`; `dist_transform` on a line of n elements. The float tests are oracles that
+         are functions of (q,k): `s > z[k]` is FALSE (pop, --k) iff pop[(q+k) % len(pop)] != 0
+         (empty list: never pop; `pop=1`: pop as long as allowed); `z[k+1] < q` is TRUE (++k) iff
+         adv[(q+k) % len(adv)] != 0. With `guard=1` the two facts the kernel relies on hold:
+         the test against z[0] = -inf succeeds (s is not NaN) and z[kmax+1] = +inf is never < q.
+         `guard=0` drops both (NaN input): `term=0` when k reaches -1.
+  kind=bbox    ndim= maxlabel= label=
+      -> `ok= n=`; `bbox_labeled`: extrema[2*ndim*label + 2j (+1)], allocation 2*ndim*(maxlabel+1).
+  kind=foldl   maxi= label=
+      -> `ok= n=`; `labeled_foldl`: result[label] behind the guard `0 <= label < maxi`.
+  kind=com     ndim= maxlabel= label= size= lsize=
+      -> `ok= n=`; `center_of_mass` with labels: totals[label], centers[label*ndim+j], labels[i] for
+         every flat i < size (labels buffer has lsize elements).
+  kind=cooc    m0= m1= v= v2=
+      -> `ok= n=`; `cooccurence`: `res.at(v, v2)` on a result of shape (m0, m1) (skipped when v or v2 < 0).
+  kind=plusminus n= plus= minus=
+      -> `ok= n=`; `compute_plus_minus` on an n x n matrix with `px_plus_y` of `plus` and `px_minus_y` of `minus` elements.
+  any other kind -> `error=unknown-kind-<k>`
+
+`term=1` means every `for (…; i != stop; ++i)` loop of the model left through its test within the
+step budget (budget = buffer length + 1, so a run-away loop shows up as `term=0` and `ok=0`).
+-/
 import Mahotas.Model.Border
-import Mahotas.Model.DType
 namespace Mahotas.C10
 open Mahotas
 
+/-! ## accesses -/
+
+/-- one dereference: index `i` applied to a buffer (or an axis) whose valid indices are `0 … size-1` -/
+structure Acc where
+  i : Int
+  size : Int
+deriving Repr, DecidableEq
+
+def Acc.ok (a : Acc) : Bool := decide (0 ≤ a.i) && decide (a.i < a.size)
+
+def allOk (l : List Acc) : Bool := l.all Acc.ok
+
+/-- `for (i = 0; i < n; ++i)` (also `i != n` when `n ≥ 0` is known syntactically, e.g. a size) -/
+def rangeI (n : Int) : List Int := (List.range n.toNat).map Int.ofNat
+
+/-- `for (x = start; x != stop; ++x)` with a step budget: such a loop runs away when `start > stop`. -/
+def iterNe (x stop : Int) : Nat → List Int
+  | 0 => []
+  | f + 1 => if x = stop then [] else x :: iterNe (x + 1) stop f
+
+/-- did the `!=` loop leave through its test within the budget? -/
+def iterNeDone (x stop : Int) : Nat → Bool
+  | 0 => decide (x = stop)
+  | f + 1 => if x = stop then true else iterNeDone (x + 1) stop f
+
+/-- signed C-order flat index `Σ p_d · cstride_d` -/
+def ravelZ : List Nat → List Int → Int
+  | _ :: ds, p :: ps => p * (shapeSize ds : Int) + ravelZ ds ps
+  | _, _ => 0
+
+/-- `Σ stride_d · c_d` (element strides, any sign) -/
+def dot : List Int → List Int → Int
+  | s :: ss, c :: cs => s * c + dot ss cs
+  | _, _ => 0
+
+/-! ## B1 — the filter iterator (`_filters.cpp: init_filter_offsets`, `_filters.h: retrieve/set`) -/
+
+/-- `orgn = fshape[ii]/2` (no `origins` argument is ever passed by mahotas) -/
+def origin (f : Nat) : Int := Int.ofNat (f / 2)
+
+/-- coordinates of the element read at array position `p` for filter coordinate `k`
+    (`cc = coordinates[ii] - orgn + position[ii]; cc = fix_offset(mode, cc, ashape[ii])`,
+    `orgn = fshape[ii]/2`); `none` = `border_flag_value`. -/
+def neighbourIndex (m : Mode) : List Nat → List Nat → List Int → List Int → Option (List Int)
+  | a :: as, f :: fs, p :: ps, k :: ks =>
+    match fixOffset m (k - origin f + p) a, neighbourIndex m as fs ps ks with
+    | some c, some cs => some (c :: cs)
+    | _, _ => none
+  | _, _, _, _ => some []
+
+/-- the entry of the offset table (`_filters.cpp` lines 101-123): on every axis
+    `cc = fix_offset(..)`; flag → the entry is the flag; else `cc -= position; offset += astride*cc`. -/
+def tableOffset (m : Mode) : List Nat → List Int → List Nat → List Int → List Int → Option Int
+  | a :: as, s :: ss, f :: fs, p :: ps, k :: ks =>
+    match fixOffset m (k - origin f + p) a with
+    | none => none
+    | some cc =>
+      match tableOffset m as ss fs ps ks with
+      | none => none
+      | some off => some (s * (cc - p) + off)
+  | _, _, _, _, _ => some 0
+
+/-- everything a filter iterator over `shape` with a filter of shape `fshape` reads:
+    array positions in C scan order (outer), filter coordinates in C scan order (inner). -/
+def filterReads (m : Mode) (shape fshape : List Nat) : List (Option (List Int)) :=
+  (allPos shape).flatMap fun p => (allPos fshape).map fun k => neighbourIndex m shape fshape p k
+
+def filterIdx (m : Mode) (shape fshape : List Nat) : List Int :=
+  (filterReads m shape fshape).map fun
+    | some q => ravelZ shape q
+    | none => -1
+
+def filterOk (m : Mode) (shape fshape : List Nat) : Bool :=
+  (filterReads m shape fshape).all fun
+    | some q => inside shape q
+    | none => true
+
+/-! ### B1, regions: the table holds one set of offsets per border REGION, computed at the region's
+representative `position[]`, and `retrieve` adds it to the pointer at the actual position. -/
+
+/-- `iterate_both` along one axis: moving from coordinate `p` to `p+1` advances the offsets pointer
+    iff `p < minbound (= orgn)` or `p >= maxbound (= ashape - fshape + orgn)`. The region index at `p`. -/
+def regionIndex (a f : Nat) : Nat → Nat
+  | 0 => 0
+  | p + 1 =>
+    regionIndex a f p +
+      (if (p : Int) < origin f ∨ (p : Int) ≥ (a : Int) - f + origin f then 1 else 0)
+
+/-- "move to the next array region" of `init_filter_offsets` along one axis (lines 131-138):
+    `if (position == orgn) { position += ashape - fshape + 1; if (position <= orgn) position = orgn + 1; } else position++;` -/
+def nextRegionPos (a f : Nat) (pos : Int) : Int :=
+  if pos = origin f then
+    let q := pos + ((a : Int) - f + 1)
+    if q ≤ origin f then origin f + 1 else q
+  else pos + 1
+
+/-- `position[ii]` of the `r`-th region along one axis -/
+def regionPos (a f : Nat) : Nat → Int
+  | 0 => 0
+  | r + 1 => nextRegionPos a f (regionPos a f r)
+
+/-- the representative position the table entry used at array position `p` was computed at -/
+def repPos : List Nat → List Nat → List Int → List Int
+  | a :: as, f :: fs, p :: ps => regionPos a f (regionIndex a f p.toNat) :: repPos as fs ps
+  | _, _, _ => []
+
+/-- `offsets_size` factors: `ashape[ii] < fshape[ii] ? ashape[ii] : fshape[ii]` per axis
+    (also the `step` of `init_filter_iterator`) -/
+def minShape : List Nat → List Nat → List Nat
+  | a :: as, f :: fs => min a f :: minShape as fs
+  | _, _ => []
+
+/-- per-axis region indices at array position `p` -/
+def regionIdxPos : List Nat → List Nat → List Int → List Int
+  | a :: as, f :: fs, p :: ps => (regionIndex a f p.toNat : Int) :: regionIdxPos as fs ps
+  | _, _, _ => []
+
+/-- the row of the offsets table in use at `p`: region indices weighted by the table strides
+    `strides[d] = Π_{e>d} step_e` (times `filter_size`, the row length) — a C-order flat index over `minShape`. -/
+def tableRow (ashape fshape : List Nat) (p : List Int) : Nat :=
+  ravelI (minShape ashape fshape) (regionIdxPos ashape fshape p)
+
+/-- `++iterator` of the array iterator (`numpypp/array.hpp`): C-order odometer on the coordinates;
+    `none` = past the last element. -/
+def succPos : List Nat → List Int → Option (List Int)
+  | a :: as, p :: ps =>
+    match succPos as ps with
+    | some ps' => some (p :: ps')
+    | none => if p < (a : Int) - 1 then some ((p + 1) :: ps.map (fun _ => 0)) else none
+  | _, _ => none
+
+/-- `filter_iterator::iterate_both` (`_filters.h`), in units of table rows: from the last axis
+    backwards, `if (p < dim-1) { if (p < minbound || p >= maxbound) idx += strides[d]; break; }
+    idx -= backstrides[d];` with `strides[d] = Π_{e>d} step_e`, `backstrides[d] = (step_d-1)·strides[d]`,
+    `step = min(ashape, fshape)`, `minbound = orgn`, `maxbound = ashape - fshape + orgn`.
+    Returns the change of the row pointer and whether every axis wrapped (end of the array). -/
+def iterateBothDelta : List Nat → List Nat → List Int → Int × Bool
+  | a :: as, f :: fs, p :: ps =>
+    let r := iterateBothDelta as fs ps
+    if !r.2 then (r.1, false)
+    else
+      let stride : Int := (shapeSize (minShape as fs) : Int)
+      if p < (a : Int) - 1 then
+        (r.1 + (if p < origin f ∨ p ≥ (a : Int) - f + origin f then stride else 0), false)
+      else (r.1 - (((min a f : Nat) : Int) - 1) * stride, true)
+  | _, _, _ => (0, true)
+
+/-- the scan of a kernel: `n` times `iterate_both` from the first element; position of the array
+    iterator and row pointer of the filter iterator. -/
+def scanState (ashape fshape : List Nat) : Nat → Option (List Int × Int)
+  | 0 => some (ashape.map (fun _ => 0), 0)
+  | n + 1 =>
+    match scanState ashape fshape n with
+    | some (p, row) =>
+      match succPos ashape p with
+      | some p' => some (p', row + (iterateBothDelta ashape fshape p).1)
+      | none => none
+    | none => none
+
+/-- the odometer "move to the next array region" of `init_filter_offsets` over all axes
+    (lines 129-146): from the last axis backwards `position[ii] = next; if (position[ii] < ashape[ii])
+    break; else position[ii] = 0;`. `none` = every axis wrapped. -/
+def nextRegionPositions : List Nat → List Nat → List Int → Option (List Int)
+  | a :: as, f :: fs, pos :: rest =>
+    match nextRegionPositions as fs rest with
+    | some rest' => some (pos :: rest')
+    | none =>
+      let q := nextRegionPos a f pos
+      if q < (a : Int) then some (q :: rest.map (fun _ => 0)) else none
+  | _, _, _ => none
+
+/-- `position[]` while row `ll` of the offsets table is being filled -/
+def fillPos (ashape fshape : List Nat) : Nat → Option (List Int)
+  | 0 => some (ashape.map fun _ => 0)
+  | n + 1 => (fillPos ashape fshape n).bind (nextRegionPositions ashape fshape)
+
+/-! ## B2 — `fast_binary_dilate_erode_2d` (`_morph.cpp`) -/
+
+/-- lines 181-182: `if (dx > Nx) dx = Nx; if (dx < -Nx) dx = -Nx;` -/
+def fbClampDx (nx dx : Int) : Int :=
+  let dx := if dx > nx then nx else dx
+  if dx < -nx then -nx else dx
+
+/-- lines 200-203: `if ((y + dy) < 0) dy = -y; if ((y + dy) >= Ny) dy = -y+(Ny-1);` -/
+def fbRowDy (ny y dy : Int) : Int :=
+  let dy := if y + dy < 0 then -y else dy
+  if y + dy ≥ ny then -y + (ny - 1) else dy
+
+/-- row `y`, raw row offset `dy0`, column offset `dx` (as stored in `positions`):
+    row indices (`res.data(y)`, `array.data(y+dy)`) and all column indices of the border loop and of
+    the main loop (`n = Nx - |dx|` iterations from the shifted pointers). -/
+def fbAccesses (ny nx y dy0 dx : Int) (erosion : Bool) : List Acc :=
+  let dy := fbRowDy ny y dy0
+  let fuel := nx.toNat + 1
+  let n := nx - (dx.natAbs : Int)
+  let col (c : Int) := Acc.mk c nx
+  let rows := [Acc.mk y ny, Acc.mk (y + dy) ny]
+  let border : List Acc :=
+    if dx > 0 then
+      (iterNe 0 dx fuel).flatMap fun i =>
+        if erosion then [col (nx - i - 1), col (nx - 1)] else [col (nx - 1), col (nx - i - 1)]
+    else if dx < 0 then
+      (iterNe 0 (-dx) fuel).flatMap fun i =>
+        if erosion then [col i, col 0] else [col 0, col i]
+    else []
+  let outShift : Int := if erosion then (if dx < 0 then -dx else 0) else (if dx > 0 then dx else 0)
+  let inShift : Int := if erosion then (if dx > 0 then dx else 0) else (if dx < 0 then -dx else 0)
+  rows ++ border ++ (iterNe 0 n fuel).flatMap fun i => [col (outShift + i), col (inShift + i)]
+
+def fbDone (nx dx : Int) : Bool :=
+  let fuel := nx.toNat + 1
+  (if dx > 0 then iterNeDone 0 dx fuel else if dx < 0 then iterNeDone 0 (-dx) fuel else true) &&
+    iterNeDone 0 (nx - (dx.natAbs : Int)) fuel
+
+/-! ## B3 — `convolve1d` fast path, `find2d` (`_convolve.cpp`), `majority_filter` (`_morph.cpp`) -/
+
+/-- one row of `convolve1d`: columns read and written, `N1 = n1`, `Nf = nf`, `centre = Nf/2`.
+    The first loop is `for (x = centre; x != N1 - centre; ++x)` behind `if (centre >= N1) break;`;
+    the second `for (x_ = 0; x_ != 2*centre && x_ < N1; ++x_)` ranges over `[0, min(2 centre, N1))`. -/
+def conv1dAccesses (m : Mode) (n1 nf : Int) : List Acc :=
+  let c := nf / 2
+  let fuel := n1.toNat + 1
+  let first : List Acc :=
+    if c ≥ n1 then [] else
+      (iterNe c (n1 - c) fuel).flatMap fun x =>
+        (rangeI nf).map (fun j => Acc.mk (x + j - c) n1) ++ [Acc.mk (c + (x - c)) n1]
+  let second : List Acc :=
+    (rangeI (min (2 * c) n1)).flatMap fun x_ =>
+      let x := if x_ < c then x_ else (n1 - 1) - (x_ - c)
+      ((rangeI nf).filterMap fun j => (fixOffset m (x + (j - c)) n1).map fun o => Acc.mk o n1)
+        ++ [Acc.mk x n1]
+  first ++ second
+
+def conv1dDone (n1 nf : Int) : Bool :=
+  let c := nf / 2
+  if c ≥ n1 then true else iterNeDone c (n1 - c) (n1.toNat + 1)
+
+/-- `find2d`: reads `array.at(y+sy, x+sx)`, `target.at(sy,sx)`, writes `out.at(y,x)`;
+    `incl = false`: loops `y < N0-Nt0`, `x < N1-Nt1` (the tree as it is), `true`: `<=`. -/
+def find2dAccesses (n0 n1 t0 t1 : Int) (incl : Bool) : List Acc :=
+  let e : Int := if incl then 1 else 0
+  (rangeI (n0 - t0 + e)).flatMap fun y => (rangeI (n1 - t1 + e)).flatMap fun x =>
+    ((rangeI t0).flatMap fun sy => (rangeI t1).flatMap fun sx =>
+      [Acc.mk (y + sy) n0, Acc.mk (x + sx) n1, Acc.mk sy t0, Acc.mk sx t1])
+    ++ [Acc.mk y n0, Acc.mk x n1]
+
+/-- `majority_filter`: `if (rows < N || cols < N) return;` then `y != rows-N`, `x != cols-N`,
+    `dy != N`, `dx != N`; reads `input.at(y+dy,x+dx)`, writes the C-contiguous output at
+    `(y+N/2)*stride0 + N/2 + x` with `stride0 = cols`. -/
+def majorityAccesses (rows cols n : Int) : List Acc :=
+  if rows < n ∨ cols < n then [] else
+  let fr := rows.toNat + 1
+  let fc := cols.toNat + 1
+  (iterNe 0 (rows - n) fr).flatMap fun y => (iterNe 0 (cols - n) fc).flatMap fun x =>
+    ((iterNe 0 n fr).flatMap fun dy => (iterNe 0 n fc).flatMap fun dx =>
+      [Acc.mk (y + dy) rows, Acc.mk (x + dx) cols])
+    ++ [Acc.mk ((y + n / 2) * cols + n / 2 + x) (rows * cols)]
+
+def majorityDone (rows cols n : Int) : Bool :=
+  if rows < n ∨ cols < n then true else
+  iterNeDone 0 (rows - n) (rows.toNat + 1) && iterNeDone 0 (cols - n) (cols.toNat + 1) &&
+    iterNeDone 0 n (rows.toNat + 1) && iterNeDone 0 n (cols.toNat + 1)
+
+/-! ## B4 — `hitmiss` (`_morph.cpp`) -/
+
+/-- `delta = input.pos_to_flat(Bi.position() - centre)` for every coordinate of `Bc` in scan order
+    (`pos_to_flat` is the signed C-order dot product `ravelZ`; `centre = Bc.dim/2`; entries equal to 2
+    are dropped by the code, the model keeps all). -/
+def hmDeltas (shape bshape : List Nat) : List Int :=
+  (allPos bshape).map fun k => ravelZ shape (subPos k (bshape.map origin))
+
+/-- the margin test of the `while (!slack)` body on `cur = flat_to_pos(i)`: the first axis `d` with
+    `min(cur[d], dim(d) - cur[d] - 1) < Bc.dim(d)/2` and the number of elements `size` to skip. -/
+def hmFirstFail : List Nat → List Nat → List Int → Option Nat
+  | a :: as, b :: bs, c :: cs =>
+    if min c ((a : Int) - c - 1) < origin b then some (shapeSize as) else hmFirstFail as bs cs
+  | _, _, _ => none
+
+/-- the main loop, one step per `while` round / per processed pixel, with a step budget.
+    State `(i, slack)`. `slack0 = dim(last) - Bc.dim(last) + 1`. Accesses: `res.at_flat(i)` when
+    skipping, `input.at_flat(i + delta)` for every neighbour and `res.at_flat(i)` when processing
+    (`at_flat(p)` needs `0 ≤ p < N`: it is `data()[p]` for C arrays, else the C-order position of `p`).
+    The Boolean is `true` when the loop ended through `i == N`. `margin = false` removes the test. -/
+def hmLoop (shape bshape : List Nat) (deltas : List Int) (margin : Bool) (N : Nat) (slack0 : Int) :
+    Nat → Nat → Int → List Acc × Bool
+  | 0, i, _ => ([], decide (i = N))
+  | f + 1, i, slack =>
+    if i = N then ([], true) else
+    if slack = 0 then
+      match (if margin then hmFirstFail shape bshape (unravelI shape i) else none) with
+      | some size =>
+        let cnt := min size (N - i)
+        let w := (List.range cnt).map fun j => Acc.mk ((i + j : Nat) : Int) N
+        let r := hmLoop shape bshape deltas margin N slack0 f (i + cnt) 0
+        (w ++ r.1, r.2)
+      | none => hmLoop shape bshape deltas margin N slack0 f i slack0
+    else
+      let here := deltas.map (fun δ => Acc.mk ((i : Int) + δ) N) ++ [Acc.mk (i : Int) N]
+      let r := hmLoop shape bshape deltas margin N slack0 f (i + 1) (slack - 1)
+      (here ++ r.1, r.2)
+
+def hmRun (shape bshape : List Nat) (margin : Bool) : List Acc × Bool :=
+  let N := shapeSize shape
+  hmLoop shape bshape (hmDeltas shape bshape) margin N
+    ((shape.getLastD 0 : Int) - (bshape.getLastD 0 : Int) + 1) (2 * N + 2) 0 0
+
+/-! ## B6 — `dist_transform` (`_distance.cpp`): `z[n+1]`, `v[n]`, `f[n]`, `Df[n]` -/
+
+/-- the do-while of the first loop at `(q, k)`; `cmp q k` abstracts the float test `s > z[k]`
+    (`true` = break). `vs` is the content of `v[0..k]`, top first. Returns the accesses and, unless
+    `k` would become `-1` (then `v[-1]` is recorded and the model stops), the `k` at `break`. -/
+def dtPop (cmp : Nat → Nat → Bool) (n q : Nat) : Nat → List Int → List Acc × Option (Nat × List Int)
+  | 0, vs =>
+    let here := [Acc.mk 0 n, Acc.mk 0 (n + 1), Acc.mk q n, Acc.mk (vs.headD 0) n]
+    if cmp q 0 then (here, some (0, vs)) else (here ++ [Acc.mk (-1) n], none)
+  | k + 1, vs =>
+    let here := [Acc.mk (k + 1 : Nat) n, Acc.mk (k + 1 : Nat) (n + 1), Acc.mk q n, Acc.mk (vs.headD 0) n]
+    if cmp q (k + 1) then (here, some (k + 1, vs))
+    else let r := dtPop cmp n q k vs.tail; (here ++ r.1, r.2)
+
+/-- `cnt` iterations of `for (q = 1; q != n; ++q)` starting at `q` with state `(k, v[0..k])`:
+    after the do-while `++k; v[k] = q; z[k] = s; z[k+1] = inf;`. -/
+def dtFirst (cmp : Nat → Nat → Bool) (n : Nat) : Nat → Nat → Nat → List Int → List Acc × Option (Nat × List Int)
+  | 0, _, k, vs => ([], some (k, vs))
+  | c + 1, q, k, vs =>
+    match dtPop cmp n q k vs with
+    | (a, none) => (a, none)
+    | (a, some (kb, vs')) =>
+      let k' := kb + 1
+      let w := [Acc.mk (k' : Nat) n, Acc.mk (k' : Nat) (n + 1), Acc.mk ((k' : Nat) + 1) (n + 1)]
+      let r := dtFirst cmp n c (q + 1) k' ((q : Int) :: vs')
+      (a ++ w ++ r.1, r.2)
+
+/-- `while (z[k+1] < q) ++k;` with `lt2 q k` abstracting the float test; budget `fuel`. -/
+def dtAdvance (lt2 : Nat → Nat → Bool) (n q : Nat) : Nat → Nat → List Acc × Nat
+  | 0, k => ([], k)
+  | f + 1, k =>
+    let a := Acc.mk ((k : Int) + 1) (n + 1)
+    if lt2 q k then let r := dtAdvance lt2 n q f (k + 1); (a :: r.1, r.2) else ([a], k)
+
+/-- `cnt` iterations of the second loop starting at `q`; `v` is the final content of `v[0..kmax]`
+    (bottom first). Accesses `z[k+1]`, `v[k]`, `Df[q]`, `f[v[k]]`. -/
+def dtSecond (lt2 : Nat → Nat → Bool) (n : Nat) (v : List Int) : Nat → Nat → Nat → List Acc
+  | 0, _, _ => []
+  | c + 1, q, k =>
+    let r := dtAdvance lt2 n q (n + 2) k
+    r.1 ++ [Acc.mk (r.2 : Nat) n, Acc.mk q n, Acc.mk (v.getD r.2 0) n] ++ dtSecond lt2 n v c (q + 1) r.2
+
+/-- the largest `k` the first loop leaves behind (`z[kmax+1] = inf`) -/
+def dtKmax (cmp : Nat → Nat → Bool) (n : Nat) : Nat :=
+  match (dtFirst cmp n (n - 1) 1 0 [0]).2 with
+  | some (k, _) => k
+  | none => 0
+
+def dtAccesses (cmp lt2 : Nat → Nat → Bool) (n : Nat) : List Acc :=
+  let init := [Acc.mk 0 n, Acc.mk 0 (n + 1), Acc.mk 1 (n + 1)]
+  let r := dtFirst cmp n (n - 1) 1 0 [0]
+  init ++ r.1 ++
+    match r.2 with
+    | none => []
+    | some (_, vs) => dtSecond lt2 n vs.reverse n 0 0
+
+/-! ## B7 — label-indexed tables -/
+
+/-- `bbox_labeled`: `base = extrema + (*pos) * 2 * nd; base[2*j], base[2*j+1]`, `j < nd`;
+    `labeled.bbox` allocates `f.ndim * 2 * (n+1)` with `n = f.max()`. -/
+def bboxAccesses (nd maxlabel label : Int) : List Acc :=
+  (rangeI nd).flatMap fun j =>
+    [Acc.mk (label * 2 * nd + 2 * j) (nd * 2 * (maxlabel + 1)),
+     Acc.mk (label * 2 * nd + (2 * j + 1)) (nd * 2 * (maxlabel + 1))]
+
+/-- `labeled_foldl`: `if ((*literator >= 0) && (*literator < maxlabel)) result[*literator] = …` -/
+def foldlAccesses (maxi label : Int) : List Acc :=
+  if label ≥ 0 ∧ label < maxi then [Acc.mk label maxi] else []
+
+/-- `center_of_mass` with labels at flat position `i`: `labels[i]` (buffer of `lsize` elements),
+    `totals[label]` (`max_label+1`), `centers[label*nd + j]` (`nd*(max_label+1)`), `j < nd`. -/
+def comAccessesAt (nd maxlabel label lsize i : Int) : List Acc :=
+  [Acc.mk i lsize, Acc.mk label (maxlabel + 1)] ++
+    (rangeI nd).map fun j => Acc.mk (label * nd + j) (nd * (maxlabel + 1))
+
+def comAccesses (nd maxlabel label size lsize : Int) : List Acc :=
+  (rangeI size).flatMap fun i => comAccessesAt nd maxlabel label lsize i
+
+/-- `cooccurence` (`features/_texture.cpp:37`): `++res.at(val, val2)` on a result of shape `(m0, m1)`,
+    reached only when `val >= 0 && val2 >= 0`. -/
+def coocAccesses (m0 m1 v v2 : Int) : List Acc :=
+  if v < 0 ∨ v2 < 0 then [] else [Acc.mk v m0, Acc.mk v2 m1]
+
+/-- `compute_plus_minus` (`features/_texture.cpp:94-99`): `px_plus_y.at(i+j)`, `px_minus_y.at(|i-j|)`,
+    `p.at(i,j)` for `i, j < N`. -/
+def plusMinusAccesses (n plus minus : Int) : List Acc :=
+  (rangeI n).flatMap fun i => (rangeI n).flatMap fun j =>
+    [Acc.mk (i + j) plus, Acc.mk ((i - j).natAbs : Int) minus, Acc.mk i n, Acc.mk j n]
+
+/-! ## protocol -/
+
+def b2s (b : Bool) : String := if b then "1" else "0"
+
+def report (l : List Acc) (term : Bool := true) : String :=
+  s!"ok={b2s (allOk l && term)} n={l.length} term={b2s term}"
+
 def handle (a : Args) : String :=
   match a.str "kind" with
+  | "filter" =>
+    match Mode.ofCode (a.nat "mode") with
+    | none => "error=bad-mode"
+    | some m =>
+      let shape := a.nats "shape"
+      let fshape := a.nats "fshape"
+      let idx := filterIdx m shape fshape
+      let rows := (List.range (shapeSize shape)).map fun n =>
+        match scanState shape fshape n with
+        | some (_, row) => row
+        | none => -1
+      let fill := (List.range (shapeSize (minShape shape fshape))).map fun n =>
+        match fillPos shape fshape n with
+        | some pos => ravelZ shape pos
+        | none => -1
+      s!"fill={showInts fill} idx={showInts idx} ok={b2s (filterOk m shape fshape)} n={idx.length} rows={showInts rows} nrows={shapeSize (minShape shape fshape)}"
+  | "region" =>
+    let a' := a.nat "a"; let f := a.nat "f"
+    let idx := (List.range a').map (regionIndex a' f)
+    s!"idx={showNats idx} rep={showInts (idx.map (regionPos a' f))} pos={showInts ((List.range (min a' f)).map (regionPos a' f))}"
+  | "fastbin" =>
+    let ny := a.int "ny"; let nx := a.int "nx"
+    let dx := if a.int "clamp" 1 = 0 then a.int "dx" else fbClampDx nx (a.int "dx")
+    let er := a.int "erosion" ≠ 0
+    report ((rangeI ny).flatMap fun y => fbAccesses ny nx y (a.int "dy") dx er) (fbDone nx dx)
+  | "conv1d" =>
+    match Mode.ofCode (a.nat "mode") with
+    | none => "error=bad-mode"
+    | some m => report (conv1dAccesses m (a.int "n1") (a.int "nf")) (conv1dDone (a.int "n1") (a.int "nf"))
+  | "find2d" =>
+    report (find2dAccesses (a.int "n0") (a.int "n1") (a.int "t0") (a.int "t1") (a.int "incl" ≠ 0))
+  | "majority" =>
+    report (majorityAccesses (a.int "rows") (a.int "cols") (a.int "n"))
+      (majorityDone (a.int "rows") (a.int "cols") (a.int "n"))
+  | "hitmiss" =>
+    let r := hmRun (a.nats "shape") (a.nats "bshape") (a.int "margin" 1 ≠ 0)
+    report r.1 r.2
+  | "dt" =>
+    let n := a.nat "n"
+    let pop := a.ints "pop"
+    let adv := if a.has "adv" then a.ints "adv" else [1]
+    let guard := a.int "guard" 1 ≠ 0
+    let cmp : Nat → Nat → Bool := fun q k =>
+      (guard && k == 0) || pop.getD ((q + k) % pop.length) 0 == 0
+    let kmax := dtKmax cmp n
+    let lt2 : Nat → Nat → Bool := fun q k =>
+      (!guard || k < kmax) && adv.getD ((q + k) % adv.length) 0 != 0
+    let l := dtAccesses cmp lt2 n
+    report l ((dtFirst cmp n (n - 1) 1 0 [0]).2.isSome)
+  | "bbox" => report (bboxAccesses (a.int "ndim") (a.int "maxlabel") (a.int "label"))
+  | "foldl" => report (foldlAccesses (a.int "maxi") (a.int "label"))
+  | "com" =>
+    report (comAccesses (a.int "ndim") (a.int "maxlabel") (a.int "label") (a.int "size") (a.int "lsize"))
+  | "cooc" => report (coocAccesses (a.int "m0") (a.int "m1") (a.int "v") (a.int "v2"))
+  | "plusminus" => report (plusMinusAccesses (a.int "n") (a.int "plus") (a.int "minus"))
   | k => s!"error=unknown-kind-{k}"
 
 end Mahotas.C10
